@@ -128,6 +128,8 @@ UNARY = {
     "sesolve_prop": None, "mesolve_dm": None, "propagator": None, "steadystate": None,
     "to_choi": None, "to_chi": None, "to_super_rt": None,
     "evo_complex_coeff": None, "transform_kets": None, "transform_matrix": None, "solver_reuse_me": None, "solver_reuse_se": None,
+    "tensor_swap_left": None, "tensor_swap_right": None, "tensor_swap_both": None, "tensor_swap_cross": None,
+    "dissipator_chi": None, "liouvillian_chi": None, "dissipator_pair": None, "expand_operator": None, "super_tensor": None,
     "trunc_neg": lambda q: q.trunc_neg() if q.isherm else q,
     "sadd_real": lambda q: q + 0.5, "rssub_real": lambda q: 0.5 - q, "sadd_imag_pos": lambda q: q + 0.15j,
     "sadd_imag_neg": lambda q: q + (-0.15j), "rsadd_imag_neg": lambda q: (-0.15j) + q, "ssub_imag_pos": lambda q: q - 0.15j,
@@ -206,6 +208,44 @@ def apply_op(name, args, rng):
         if r & 2:
             t.isunitary
         return t.permute([1, 0])
+    if name.startswith("tensor_swap"):
+        if not (q.isoper and args[1].isoper and not q.issuper and not args[1].issuper):
+            return q.copy()
+        t = qutip.tensor(q, args[1])
+        r = rng.integers(0, 4)
+        if r & 1:
+            t.isherm
+        if r & 2:
+            t.isunitary
+        pairs = {"tensor_swap_left": [(0, 1)], "tensor_swap_right": [(2, 3)], "tensor_swap_both": [(0, 1), (2, 3)], "tensor_swap_cross": [(0, 2)]}[name]
+        return qutip.tensor_swap(t, *pairs)
+    if name in ("dissipator_chi", "liouvillian_chi", "dissipator_pair"):
+        if not (q.isoper and not q.issuper):
+            return q.copy()
+        if rng.random() < 0.6:
+            q.isherm
+        chi = float(rng.choice([0.7, -1.3, np.pi / 2]))
+        if name == "dissipator_chi":
+            return qutip.lindblad_dissipator(q, chi=chi)
+        if name == "liouvillian_chi":
+            return qutip.liouvillian(None, [q], chi=[chi])
+        return qutip.lindblad_dissipator(q, args[1]) if args[1].isoper and not args[1].issuper and args[1].dims == q.dims else q.copy()
+    if name == "expand_operator":
+        if not (q.isoper and not q.issuper and q.dims == [[2], [2]]):
+            return q.copy()
+        if rng.random() < 0.5:
+            q.isherm
+            q.isunitary
+        return qutip.expand_operator(q, dims=[2, 3, 2], targets=int(rng.integers(0, 3)) if False else [0, 2][int(rng.integers(0, 2))])
+    if name == "super_tensor":
+        sq = q if q.issuper else (qutip.to_super(q) if q.isoper and q.dims == [[2], [2]] else None)
+        so = args[1] if args[1].issuper else (qutip.spre(args[1]) if args[1].isoper and args[1].dims == [[2], [2]] else None)
+        if sq is None or so is None or sq.dims != [[[2], [2]], [[2], [2]]] or so.dims != sq.dims:
+            return q.copy()
+        if rng.random() < 0.5:
+            sq.isherm
+            so.isherm
+        return qutip.super_tensor(sq, so)
     if name == "transform":
         return q.transform(qutip.Qobj(np.array([[0, 1], [1, 0]], dtype=complex))) if q.dims == [[2], [2]] else q.copy()
     if name == "transform_kets":
@@ -358,7 +398,8 @@ def run_program(prog, rules=None):
                     if got not in rules[op][key](pa, pb):
                         mism.append(f"{op}.{flag}: caches ({pa},{pb}) -> {got}, tabulated {sorted(map(str, rules[op][key](pa, pb)))}")
         # a wrong cache is attributed to the operation that created it, not to those that forward it
-        arity2 = op in BINARY or op in ("ptrace", "evo_td", "permute", "evo_complex_coeff")
+        arity2 = op in BINARY or op in ("ptrace", "evo_td", "permute", "evo_complex_coeff", "tensor_swap_left", "tensor_swap_right", "tensor_swap_both",
+                                        "tensor_swap_cross", "dissipator_pair", "super_tensor")
         operands_bad = (i in tainted) or (arity2 and j in tainted) or bool(check_obj(a, "x")) or (arity2 and bool(check_obj(b, "x")))
         if None in truth(a) or (arity2 and None in truth(b)):
             operands_bad = True      # borderline operand: whatever follows is a tolerance artefact
